@@ -277,7 +277,10 @@ class Discharger:
         if self.table_visited:
             self.arity_ok = self.table_ok          # decision tables of the application (evaltables.py) decided every row
         else:
-            self.arity_ok = c08.arity_rule(sub, fb, ap, asp, bpa)
+            try:
+                self.arity_ok = c08.arity_rule(sub, fb, ap, asp, bpa)
+            except mir.AnchorMissing:
+                self.arity_ok = None               # neither the tables nor the shape rule could establish it: arity arguments are undecided
         # chokepoint: builtin bodies only invoked from BuiltinProcedureBody::apply <- apply_procedure
         callers_ = fb.callers("lib")
 
@@ -577,6 +580,9 @@ class Discharger:
         if longest > fixed:
             return (False, "D-arity", "builtin %s is registered with %d fixed parameter(s) but reads up to %d arguments with "
                     "next().unwrap()" % (names, fixed, longest))
+        if self.arity_ok is None:
+            return (None, "D-arity", "whether every application is arity-checked could not be established on this tree (the application "
+                    "tables did not decide every row and the anchors of the structural rule are gone)")
         if not (self.arity_ok and self.choke_ok):
             return (False, "D-arity", "the per-application arity check (C08-arity-per-application / chokepoint) does not hold, so a "
                     "builtin can be entered with too few arguments")
@@ -604,6 +610,8 @@ class Discharger:
             return (False, "D-arity-user", "the binding closure is not the visitor of the formals being bound")
         if f.loop_blocks():
             return (False, "D-arity-user", "more than one argument is consumed per formal")
+        if self.arity_ok is None:
+            return (None, "D-arity-user", "whether every application is arity-checked could not be established on this tree")
         if not (self.arity_ok and self.choke_ok):
             return (False, "D-arity-user", "the per-application arity check does not hold (C08), so fewer arguments than fixed formals "
                     "can reach this unwrap")
@@ -915,6 +923,7 @@ class Discharger:
             for opn, path in paths.items():
                 self._analysed.add(path)
             self._analysed.add("values::Number::positive_denominator")
+            self._analysed |= set(getattr(c09.full_range_failures, "visited", ()))      # helpers the interval interpreter went through
         if f.name not in self._analysed:
             return None
         op = "Neg" if what.startswith("OverflowNeg") else (what.split(":", 1)[1] if ":" in what else what)
